@@ -91,7 +91,7 @@ theorem receive_justs (t : Table) (q q' : Tally) (sender : Pid) (c : Chain) (h :
 
 theorem TallyWF.justs_irrelevant {V : Pid → Chain → Prop} {t : Table} {q : Tally} (h : TallyWF V t q) (js : List (Chain × Just)) :
     TallyWF V t { q with justs := js } :=
-  ⟨h.nodup, h.sub, h.pos, h.voted, h.sendersNodup, h.sendersPow, h.supPow, h.covered, h.chains⟩
+  ⟨h.nodup, h.sub, h.pos, h.voted, h.sendersNodup, h.sendersPow, h.supPow, h.covered, h.chains, h.strongOk⟩
 
 theorem receive_support (t : Table) (q q' : Tally) (sender : Pid) (c : Chain) (h : q.receive t sender c = some q')
     (sup : Support) (hs : sup ∈ q'.support) : sup ∈ q.support ∨ sup.chain = c := by
@@ -138,7 +138,8 @@ theorem TallyOK.recvPrepare {W : Votes} {t : Table} {r : Nat} {q q' : Tally} (h 
     · have := hwf'
       exact ⟨by rw [h4]; exact this.nodup, by rw [h4, h5]; exact this.sub, by rw [h5]; exact this.pos,
         by rw [h4]; exact this.voted, by rw [h5]; exact this.sendersNodup, by rw [h5, h6]; exact this.sendersPow,
-        by rw [h4]; exact this.supPow, by rw [h4, h5]; exact this.covered, by rw [h4]; exact this.chains⟩
+        by rw [h4]; exact this.supPow, by rw [h4, h5]; exact this.covered, by rw [h4]; exact this.chains,
+        by rw [h4]; exact this.strongOk⟩
     · intro e he
       rcases h1 e he with he | rfl
       · rw [hjs] at he; exact h.justs e he
@@ -176,7 +177,8 @@ theorem TallyOK.recvCommit {W : Votes} {t : Table} {r : Nat} {q q' : Tally} (h :
       · have := hwf'
         exact ⟨by rw [h4]; exact this.nodup, by rw [h4, h5]; exact this.sub, by rw [h5]; exact this.pos,
           by rw [h4]; exact this.voted, by rw [h5]; exact this.sendersNodup, by rw [h5, h6]; exact this.sendersPow,
-          by rw [h4]; exact this.supPow, by rw [h4, h5]; exact this.covered, by rw [h4]; exact this.chains⟩
+          by rw [h4]; exact this.supPow, by rw [h4, h5]; exact this.covered, by rw [h4]; exact this.chains,
+        by rw [h4]; exact this.strongOk⟩
       · intro e he
         rcases h1 e he with he | rfl
         · rw [hjs] at he; exact h.justs e he
@@ -402,12 +404,19 @@ in a round whose PREPARE lies before the current point -/
 def CandOK (W : Votes) (s : State) (c : Chain) : Prop :=
   c ≠ [] ∧ (c <+: s.input ∨ ∃ r', QL W s.tbl r' .prepare c ∧ prepBefore r' s.pt)
 
-structure GInv (W : Votes) (me : Pid) (s : State) : Prop where
+/-- the part of the invariant that does not depend on the participant's identity or phase -/
+structure GCore (W : Votes) (s : State) : Prop where
   rounds : RoundsOK W s.tbl s.rounds
   decision : TallyWF (fun x c => W x 0 .decide c) s.tbl s.decision
   cands : ∀ c ∈ s.candidates, CandOK W s c
   inputNe : s.input ≠ []
+  propNe : s.proposal ≠ []
+  totalPos : 0 < s.tbl.total
+
+structure GInv (W : Votes) (me : Pid) (s : State) : Prop where
+  core : GCore W s
   ownPrep : s.phase = .prepare → W me s.round .prepare s.proposal
+  early : s.phase.toNat < 2 → s.round = 0
 
 /-- the guard of the abstract protocol (`F3.Granite.Guard`) at the list level -/
 def GuardL (W : Votes) (t : Table) (me : Pid) (input : Chain) (r : Nat) (ph : Phase) (v : Chain) : Prop :=
@@ -470,5 +479,87 @@ theorem andThen_gok {W : Votes} {me : Pid} {s : State} {r : R} {f : State → R}
         · obtain ⟨hi2, hg2⟩ := h2' ho2
           rw [htbl, hinp] at hg2
           exact ⟨hi2, Guarded_append hg1 hg2⟩
+
+
+/-! ### helper lemmas for the per-function proofs -/
+
+theorem CandOK.mono {W : Votes} {s s' : State} {c : Chain} (h : CandOK W s c) (ht : s'.tbl = s.tbl)
+    (hi : s'.input = s.input) (hle : ptLe s.pt s'.pt) : CandOK W s' c := by
+  obtain ⟨hne, h⟩ := h
+  refine ⟨hne, ?_⟩
+  rw [ht, hi]
+  rcases h with h | ⟨r', hq, hb⟩
+  · exact Or.inl h
+  · exact Or.inr ⟨r', hq, prepBefore_mono hb hle⟩
+
+/-- a broadcast-free effect list is trivially guarded -/
+theorem Guarded_of_evs_nil {W : Votes} {t : Table} {me : Pid} {input : Chain} {es : List Eff} (h : evs es = []) :
+    Guarded W t me input es := by
+  intro r ph v tk j hm
+  have : Ev.bc r ph ∈ evs es := by
+    simp only [evs, List.mem_filterMap]; exact ⟨_, hm, rfl⟩
+  rw [h] at this; simp at this
+
+theorem addCandidate_mem (s : State) (c x : Chain) (h : x ∈ (s.addCandidate c).1.candidates) :
+    x ∈ s.candidates ∨ x = c := by
+  unfold State.addCandidate at h
+  split at h
+  · exact Or.inl h
+  · simp only [List.mem_append, List.mem_singleton] at h; exact h
+
+theorem addCandidatePrefixes_mem (s : State) (c x : Chain) (h : x ∈ (s.addCandidatePrefixes c).1.candidates) :
+    x ∈ s.candidates ∨ ∃ l, 0 < l ∧ x = prefixTo c l := by
+  unfold State.addCandidatePrefixes at h
+  generalize hl : ((List.range (c.length - 1)).reverse.map (· + 1)) = l at h
+  have hpos : ∀ y ∈ l, 0 < y := by
+    intro y hy; rw [← hl] at hy; simp at hy; obtain ⟨a, _, rfl⟩ := hy; omega
+  clear hl
+  suffices hgen : ∀ (l : List Nat), (∀ y ∈ l, 0 < y) → ∀ (acc : State × Bool),
+      (∀ y ∈ acc.1.candidates, y ∈ s.candidates ∨ ∃ l, 0 < l ∧ y = prefixTo c l) →
+      ∀ y ∈ (l.foldl (fun (acc : State × Bool) l =>
+        let r := acc.1.addCandidate (prefixTo c l); (r.1, acc.2 || r.2)) acc).1.candidates,
+        y ∈ s.candidates ∨ ∃ l, 0 < l ∧ y = prefixTo c l from hgen l hpos (s, false) (fun y hy => Or.inl hy) x h
+  intro l
+  induction l with
+  | nil => intro _ acc h y hy; exact h y (by simpa using hy)
+  | cons a as ih =>
+    intro hpos acc hacc y hy
+    simp only [List.foldl_cons] at hy
+    refine ih (fun z hz => hpos z (List.mem_cons_of_mem _ hz)) _ ?_ y hy
+    intro z hz
+    rcases addCandidate_mem _ _ _ hz with hz | rfl
+    · exact hacc z hz
+    · exact Or.inr ⟨a, hpos a List.mem_cons_self, rfl⟩
+
+theorem prefixTo_prefix (c : Chain) (l : Nat) : prefixTo c l <+: c := List.take_prefix _ _
+
+theorem prefixTo_ne_nil (c : Chain) (l : Nat) (hc : c ≠ []) : prefixTo c l ≠ [] := by
+  unfold prefixTo
+  cases c with
+  | nil => exact absurd rfl hc
+  | cons a as => simp
+
+theorem longest_prefix_facts (q : Tally) (c : Chain) (hc : c ≠ []) :
+    q.longestPrefixWithQuorum c <+: c ∧ q.longestPrefixWithQuorum c ≠ [] := by
+  unfold Tally.longestPrefixWithQuorum
+  split
+  · exact ⟨List.prefix_refl _, hc⟩
+  · split
+    · rename_i p hf
+      have hm := List.mem_of_find?_eq_some hf
+      simp only [List.mem_map, List.mem_reverse, List.mem_range] at hm
+      obtain ⟨i, _, rfl⟩ := hm
+      exact ⟨prefixTo_prefix c i, prefixTo_ne_nil c i hc⟩
+    · exact ⟨List.take_prefix _ _, by unfold baseChain; cases c with | nil => exact absurd rfl hc | cons a as => simp⟩
+
+theorem prefix_trans' {a b c : Chain} (h1 : a <+: b) (h2 : b <+: c) : a <+: c := List.IsPrefix.trans h1 h2
+
+/-- candidates added by concluding QUALITY are non-empty prefixes of the input -/
+theorem quality_cands_ok (s : State) (hin : s.input ≠ []) (x : Chain)
+    (h : ∃ l, 0 < l ∧ x = prefixTo (s.quality.longestPrefixWithQuorum s.input) l) :
+    x ≠ [] ∧ x <+: s.input := by
+  obtain ⟨l, _, rfl⟩ := h
+  obtain ⟨hp, hne⟩ := longest_prefix_facts s.quality s.input hin
+  exact ⟨prefixTo_ne_nil _ l hne, prefix_trans' (prefixTo_prefix _ l) hp⟩
 
 end F3.Instance
